@@ -79,6 +79,15 @@ Judge(e) ==
     [] e.op = "sequnk" ->
          \* refused with an error instead of being mis-framed: nothing of the sequence reaches the output
          Verdict(<< <<e.bytes = <<>> /\ e.err # "none" /\ e.err # "panic", "sequnk">> >>, [bytes |-> <<>>, err |-> "an error (SeqLengthUnknown today)"])
+    [] e.op = "collected" ->
+         \* collect_seq / collect_map: with an exact size hint the count and the elements, otherwise refused, nothing emitted
+         LET RECURSIVE Twice(_)
+             Twice(x) == IF x = <<>> THEN <<>> ELSE <<Head(x), Head(x)>> \o Twice(Tail(x))
+             b == SmallVar(Len(e.items)) \o (IF e.map = 1 THEN Twice(e.items) ELSE e.items) IN
+         IF e.hint = 0 THEN Verdict(<< <<e.bytes = b /\ e.err = "none", "enc">> >>, [bytes |-> b, err |-> "none"])
+         \* (an encoder that found out the length some other way and framed the sequence correctly would not be mis-framing it)
+         ELSE Verdict(<< <<(e.bytes = <<>> /\ e.err # "none" /\ e.err # "panic") \/ (e.bytes = b /\ e.err = "none"), "sequnk">> >>,
+                      [bytes |-> <<>>, err |-> "an error (SeqLengthUnknown today), or the correct framing"])
     [] e.op = "cstr" ->
          IF e.fail_at >= 0 THEN Verdict(<< <<e.res.ok = 0 /\ e.res.err # "panic", "cstr">> >>, [ok |-> 0, err |-> "an error (CollectStr today)"])
          ELSE LET b == Enc([k |-> "str"], ConcatAll(e.pieces)) \o <<e.follow>> IN
